@@ -272,6 +272,16 @@ def run_case(ctx, case):
         run = Run(case["instance"], case.get("filter"))
         mirror_after = case.get("mirror_after", 0)
         mirror = UnscheduledOperationsObserver(run.d) if mirror_after == 0 else None
+        if case["seed"] % 5 == 0 and mirror is not None:
+            # built-in observers call the cached queries as well; their use must not disturb answers
+            from job_shop_lib.dispatching.feature_observers import (IsReadyObserver, IsScheduledObserver,
+                                                                   IsCompletedObserver, DurationObserver)
+            from job_shop_lib.graphs import build_agent_task_graph
+            from job_shop_lib.graphs.graph_updaters import ResidualGraphUpdater
+            for cls in (IsReadyObserver, IsScheduledObserver, IsCompletedObserver, DurationObserver):
+                cls(run.d)
+            ResidualGraphUpdater(run.d, build_agent_task_graph(run.instance))
+            ctx.count("histories_with_observers_attached")
         nontrivial = False
         traces = []
         steps = 0
